@@ -412,6 +412,17 @@ def nuclearProx (U : Fin m → Fin k → α) (s : Vec α k) (Vh : Fin k → Fin 
 def usvMat (U : Fin m → Fin k → α) (s : Vec α k) (Vh : Fin k → Fin n → α) : Fin m → Fin n → α :=
   fun i j => Vec.sum (fun l => U i l * s l * Vh l j)
 
+/-- complex factors: entries `Σ_l t_l · (U_il · Vh_lj)` with `t = maximum(0, s - lam)` (real) -/
+def nuclearProxC [Add α] [Sub α] [Mul α] [Zero α] [LT α] [DecidableLT α]
+    (U : Fin m → Fin k → α × α) (s : Vec α k) (Vh : Fin k → Fin n → α × α) (lam : α) : Fin m → Fin n → α × α :=
+  fun i j => (Vec.sum (fun l => nuclearSvProx s lam l * (cmul (U i l) (Vh l j)).1),
+              Vec.sum (fun l => nuclearSvProx s lam l * (cmul (U i l) (Vh l j)).2))
+
+/-- `U @ diag(s) @ Vh` for complex factors -/
+def usvMatC [Add α] [Sub α] [Mul α] [Zero α]
+    (U : Fin m → Fin k → α × α) (s : Vec α k) (Vh : Fin k → Fin n → α × α) : Fin m → Fin n → α × α :=
+  fun i j => (Vec.sum (fun l => s l * (cmul (U i l) (Vh l j)).1), Vec.sum (fun l => s l * (cmul (U i l) (Vh l j)).2))
+
 end Nuclear
 
 /-! ### which constructions advertise a prox (`has_prox`) and how invalid ones are rejected
